@@ -67,6 +67,72 @@ pub fn universe(ctx: &mut Ctx, extra: usize) -> Vec<OwnedTerm> {
         f64::MAX, f64::MIN, 4294967296.0, 2147483648.0, 36893488147419103232.0, 300.0, 5.0, -5.0, 1099511627776.0] {
         u.push(fl(f));
     }
+    // floats at every power-of-two boundary 2^52..2^64 (below, at, above), 2^1023, subnormals of both signs, NaN of both
+    // signs and payloads, the infinities; integers and big integers that sit on those boundaries
+    for e in [52u32, 53, 54, 55, 56, 62, 63, 64] {
+        let p = 2f64.powi(e as i32);
+        for f in [f64::from_bits(p.to_bits() - 1), p, f64::from_bits(p.to_bits() + 1)] {
+            u.push(fl(f));
+            if e >= 63 {
+                u.push(fl(-f));
+            }
+        }
+        if e < 63 {
+            u.push(int((1i64 << e) + 1));
+            u.push(int(-(1i64 << e)));
+        } else {
+            u.push(big(false, (1u128 << e) + 1));
+            u.push(big(false, (1u128 << e) - 1));
+            u.push(big(true, 1u128 << e));
+        }
+    }
+    for f in [2f64.powi(1023), -(2f64.powi(1023)), f64::from_bits(1), -f64::from_bits(1), f64::from_bits(0x000f_ffff_ffff_ffff),
+        -f64::MIN_POSITIVE, f64::NAN, -f64::NAN, f64::from_bits(0x7ff0_0000_0000_0001), f64::INFINITY, f64::NEG_INFINITY,
+        2f64.powi(127), 2f64.powi(128), 2f64.powi(1016), 2f64.powi(1024 - 1) * 1.5] {
+        u.push(fl(f));
+    }
+    // integers whose only bits below the float's unit are inside the byte the float's lowest mantissa bit falls into
+    // (`compare_magnitude_float`: `low_bits_set` has a whole-byte part and a partial-byte part)
+    u.push(big(false, (1u128 << 64) + (1 << 8)));
+    u.push(big(false, (1u128 << 63) + (1 << 9)));
+    u.push(big(true, (1u128 << 64) + (1 << 10)));
+    u.push(big(false, (1u128 << 70) + (1 << 17)));
+    u.push(big(false, (1u128 << 70) + (1 << 16)));
+    u.push(big(false, 1u128 << 70));
+    u.push(fl(2f64.powi(70)));
+    u.push(fl(f64::from_bits(2f64.powi(70).to_bits() + 1)));
+    // big integers of 8, 9, 128 and 129 digits: 2^1023 and 2^1024 exactly, their neighbours, a 129-digit number above f64::MAX
+    u.push(big(false, u64::MAX as u128));
+    u.push(big(false, (1u128 << 127) + 1));
+    u.push(big(false, 1u128 << 127));
+    u.push(big(true, 1u128 << 127));
+    {
+        let pow2 = |k: usize, low: u8| {
+            let mut d = vec![0u8; k / 8 + 1];
+            d[k / 8] = 1 << (k % 8);
+            d[0] |= low;
+            d
+        };
+        u.push(OwnedTerm::BigInt(BigInt::new(false, pow2(1023, 0))));
+        u.push(OwnedTerm::BigInt(BigInt::new(false, pow2(1023, 1))));
+        u.push(OwnedTerm::BigInt(BigInt::new(true, pow2(1023, 0))));
+        u.push(OwnedTerm::BigInt(BigInt::new(false, pow2(1024, 0))));
+        u.push(OwnedTerm::BigInt(BigInt::new(true, pow2(1024, 0))));
+        u.push(OwnedTerm::BigInt(BigInt::new(false, pow2(1016, 0))));
+        u.push(OwnedTerm::BigInt(BigInt::new(false, vec![0xff; 128])));
+        // f64::MAX = (2^53 - 1) * 2^971 as an integer, and its successor
+        let mut fmax = vec![0u8; 128];
+        fmax[127] = 0xff;
+        fmax[126] = 0xff;
+        fmax[125] = 0xff;
+        fmax[124] = 0xff;
+        fmax[123] = 0xff;
+        fmax[122] = 0xff;
+        fmax[121] = 0xf8;
+        u.push(OwnedTerm::BigInt(BigInt::new(false, fmax.clone())));
+        fmax[0] = 1;
+        u.push(OwnedTerm::BigInt(BigInt::new(false, fmax)));
+    }
     for s in ["", "a", "ab", "b", "ok", "z", "é", "日本", "\u{10000}", "A"] {
         u.push(atom(s));
     }
@@ -86,6 +152,8 @@ pub fn universe(ctx: &mut Ctx, extra: usize) -> Vec<OwnedTerm> {
     u.push(ifun(1, 1, 5, vec![int(1)]));
     u.push(ifun(1, 1, 5, vec![fl(1.0)]));
     u.push(ifun(1, 2, 5, vec![int(1), int(2)]));
+    u.push(ifun(1, 1, 5, vec![int(2)])); // free variables differing in an element
+    u.push(ifun(1, 2, 5, vec![int(1), atom("x")]));
     u.push(OwnedTerm::Port(ExternalPort::new(n1.clone(), 5, 1)));
     u.push(OwnedTerm::Port(ExternalPort::new(n1.clone(), 1 << 40, 1)));
     u.push(OwnedTerm::Port(ExternalPort::new(n1.clone(), 5, 2)));
@@ -135,6 +203,25 @@ pub fn universe(ctx: &mut Ctx, extra: usize) -> Vec<OwnedTerm> {
     u.push(OwnedTerm::ImproperList { elements: vec![int(1)], tail: Box::new(OwnedTerm::Binary(vec![])) });
     u.push(OwnedTerm::ImproperList { elements: vec![int(1)], tail: Box::new(OwnedTerm::Tuple(vec![])) });
     u.push(OwnedTerm::ImproperList { elements: vec![int(1), int(2)], tail: Box::new(OwnedTerm::Binary(vec![1])) });
+    // every representation of the same chain of cons cells: improper lists whose tail is itself a list, improper lists
+    // without elements (what `LIST_EXT` of length zero decodes to: no cons cell at all, i.e. the tail itself), nested
+    let il = |e: Vec<OwnedTerm>, t: OwnedTerm| OwnedTerm::ImproperList { elements: e, tail: Box::new(t) };
+    u.push(il(vec![int(1)], OwnedTerm::List(vec![int(2)])));
+    u.push(il(vec![int(1)], OwnedTerm::Nil));
+    u.push(il(vec![int(1)], il(vec![int(5)], atom("x"))));
+    u.push(il(vec![int(1)], OwnedTerm::List(vec![])));
+    u.push(il(vec![], int(5)));
+    u.push(il(vec![], atom("a")));
+    u.push(il(vec![], OwnedTerm::Binary(vec![1])));
+    u.push(il(vec![], OwnedTerm::Tuple(vec![int(1)])));
+    u.push(il(vec![], OwnedTerm::Nil));
+    u.push(il(vec![], OwnedTerm::List(vec![int(1), int(2)])));
+    u.push(il(vec![], il(vec![], fl(5.0))));
+    u.push(il(vec![], il(vec![int(1)], int(2))));
+    u.push(il(vec![int(1)], il(vec![], int(2))));
+    u.push(OwnedTerm::Tuple(vec![il(vec![], int(1))]));
+    u.push(OwnedTerm::List(vec![il(vec![], int(1)), int(2)]));
+    u.push(map(vec![(il(vec![], atom("a")), int(1))]));
     // binaries, strings, bit-strings (unused bits zero)
     for b in [vec![], vec![0u8], vec![1], vec![1, 2, 3], vec![1, 2, 4], vec![1, 2, 3, 4], vec![0x80], vec![0xc0], vec![0xff], vec![97]] {
         u.push(OwnedTerm::Binary(b));
@@ -253,9 +340,23 @@ pub fn has_nonminimal_big(t: &OwnedTerm) -> bool {
     }
 }
 
+/// does the term contain a NaN or an infinity (not Erlang values: the Erlang-order oracle says nothing about them)?
+pub fn has_nonfinite(t: &OwnedTerm) -> bool {
+    match t {
+        OwnedTerm::Float(f) => !f.is_finite(),
+        OwnedTerm::Tuple(l) | OwnedTerm::List(l) => l.iter().any(has_nonfinite),
+        OwnedTerm::ImproperList { elements, tail } => elements.iter().any(has_nonfinite) || has_nonfinite(tail),
+        OwnedTerm::Map(m) => m.iter().any(|(k, v)| has_nonfinite(k) || has_nonfinite(v)),
+        OwnedTerm::InternalFun(f) => f.free_vars.iter().any(has_nonfinite),
+        _ => false,
+    }
+}
+
 /// Erlang type rank (number < atom < reference < fun < port < pid < tuple < map < list < bit-string)
 fn type_rank(t: &OwnedTerm) -> u8 {
     match t {
+        // an improper list without elements is its tail
+        OwnedTerm::ImproperList { elements, tail } if elements.is_empty() => type_rank(tail),
         OwnedTerm::Integer(_) | OwnedTerm::BigInt(_) | OwnedTerm::Float(_) => 0,
         OwnedTerm::Atom(_) => 1,
         OwnedTerm::Reference(_) => 2,
@@ -296,18 +397,28 @@ pub fn run(ctx: &mut Ctx) {
 }
 
 pub fn run_mode(ctx: &mut Ctx, c12: bool) {
-    let extra = ctx.n(60, 140);
+    let extra = ctx.n(40, 140);
     let u = universe(ctx, extra);
     let n = u.len();
     ctx.add("universe", n as u64);
     let texts: Vec<String> = u.iter().map(term_text).collect();
+    let nonfinite: Vec<bool> = u.iter().map(has_nonfinite).collect();
     let mut m = vec![Ordering::Equal; n * n];
+    let mut panics = 0usize;
     for i in 0..n {
         for j in 0..n {
+            if c12 && (nonfinite[i] || nonfinite[j]) {
+                // NaN and the infinities denote no Erlang value; C11 covers their place in the order
+                ctx.count("pairs_with_nonfinite_float_skipped");
+                continue;
+            }
             let o = match std::panic::catch_unwind(|| u[i].cmp(&u[j])) {
                 Ok(o) => o,
                 Err(_) => {
-                    ctx.fail("c11-cmp-panics", &format!("{} {}", texts[i], texts[j]));
+                    panics += 1;
+                    if panics <= 8 {
+                        ctx.fail("c11-cmp-panics", &format!("{} {}", texts[i], texts[j]));
+                    }
                     Ordering::Equal
                 }
             };
@@ -330,14 +441,35 @@ pub fn run_mode(ctx: &mut Ctx, c12: bool) {
                         ctx.count("pairs_borrowed_differs_from_owned");
                         ctx.prop(tag, &format!("c12cmp {} {}", texts[i], texts[j]), ord(ob));
                     }
-                    Err(_) => ctx.fail("c12-borrowed-cmp-panics", &format!("{} {}", texts[i], texts[j])),
+                    Err(_) => {
+                        panics += 1;
+                        if panics <= 8 {
+                            ctx.fail("c12-borrowed-cmp-panics", &format!("{} {}", texts[i], texts[j]));
+                        }
+                    }
                 }
             } else {
-                ctx.tie("gen", &format!("c11cmp {} {}", texts[i], texts[j]), ord(o));
+                // three models on one line: `Term.cmp` (the model the laws are proved about) against the owned comparison, and
+                // the two arm-by-arm models `cmpOwned` / `cmpBorrowed`, each against its own implementation
+                let ob = std::panic::catch_unwind(|| BorrowedTerm::from(&u[i]).cmp(&BorrowedTerm::from(&u[j])));
+                match ob {
+                    Ok(ob) => ctx.tie("gen", &format!("c11all {} {}", texts[i], texts[j]), &format!("{} {} {}", ord(o), ord(o), ord(ob))),
+                    Err(_) => {
+                        panics += 1;
+                        if panics <= 8 {
+                            ctx.fail("c11-borrowed-cmp-panics", &format!("{} {}", texts[i], texts[j]));
+                        }
+                    }
+                }
             }
         }
     }
     ctx.add("exhaustive", 1);
+    if panics > 0 {
+        // a comparison that panics is reported with its input; the remaining checks call `cmp` unguarded (sort, BTreeMap)
+        ctx.add("cmp_panics", panics as u64);
+        return;
+    }
     let nonmin = nonminimal_terms();
     if c12 {
         // the oracle also on big integers with high-order zero digits, against every term of the universe and each other;
@@ -345,6 +477,9 @@ pub fn run_mode(ctx: &mut Ctx, c12: bool) {
         let nm_texts: Vec<String> = nonmin.iter().map(term_text).collect();
         for (a, ta) in nonmin.iter().zip(&nm_texts) {
             for (b, tb) in u.iter().zip(&texts).chain(nonmin.iter().zip(&nm_texts)) {
+                if has_nonfinite(b) {
+                    continue;
+                }
                 // terms of different type rank are ordered by the rank alone: a disagreement there is never the recorded finding
                 let tag = if (has_nonminimal_big(a) || has_nonminimal_big(b)) && type_rank(a) == type_rank(b) {
                     "kf-c12-nonminimal-big"
@@ -360,7 +495,7 @@ pub fn run_mode(ctx: &mut Ctx, c12: bool) {
         let mut sorted: Vec<usize> = (0..n).collect();
         sorted.sort_by(|&a, &b| u[a].cmp(&u[b]));
         for w in sorted.windows(2) {
-            if m[w[0] * n + w[1]] == Ordering::Greater {
+            if u[w[0]].cmp(&u[w[1]]) == Ordering::Greater {
                 ctx.fail("c12-sort-misplaces", &format!("{} sorted before {}", texts[w[0]], texts[w[1]]));
             }
         }
@@ -521,6 +656,12 @@ pub fn run_mode(ctx: &mut Ctx, c12: bool) {
         match bt.get(t) {
             Some(&j) if m[i * n + j] == Ordering::Equal => {}
             other => ctx.fail("c11-btreemap-loses", &format!("{} -> {:?}", texts[i], other)),
+        }
+        // a NaN is `!=` itself (`f64 ==`), so a hashed container cannot find a key that contains one; the property speaks
+        // of finite floats (the BTreeMap check above does cover NaN keys: `cmp` is reflexive on them)
+        if format!("{:?}", t).contains("NaN") {
+            ctx.count("hashmap_keys_with_nan_skipped");
+            continue;
         }
         match hm.get(t) {
             Some(&j) if u[j] == *t => {}
